@@ -55,7 +55,8 @@ func (rs *Resolved) validateDefaults() error {
 	for s := range rs.root.all() {
 		// We checked for nil schemas in [Schema.Resolve].
 		assert(s != nil, "nil schema")
-		if s.DynamicRef != "" {
+		// Under draft-07 $dynamicRef is an unknown keyword, which is ignored.
+		if s.DynamicRef != "" && rs.draft == draft2020 {
 			return fmt.Errorf("jsonschema: %s: validateDefaults does not support dynamic refs", rs.schemaString(s))
 		}
 		if s.Default != nil {
@@ -205,7 +206,10 @@ func (st *state) validate(instance reflect.Value, schema *Schema, callerAnns *an
 	}
 
 	// $dynamicRef: https://json-schema.org/draft/2020-12/json-schema-core#section-8.2.3.2
-	if schema.DynamicRef != "" {
+	// Like prefixItems, not a draft-07 keyword: there it is an unknown keyword, which is ignored.
+	// resolveRefs leaves it unresolved in a draft-07 document (a loaded document may declare a
+	// draft of its own, which st.rs.draft does not tell): there too it is ignored.
+	if schema.DynamicRef != "" && st.rs.draft == draft2020 && schemaInfo.dynamicRefResolved() {
 		// The ref behaves lexically or dynamically, but not both.
 		assert((schemaInfo.resolvedDynamicRef == nil) != (schemaInfo.dynamicRefAnchor == ""),
 			"DynamicRef not resolved properly")
@@ -657,13 +661,16 @@ func (st *state) validate(instance reflect.Value, schema *Schema, callerAnns *an
 // resolveDynamicRef returns the schema referred to by the argument schema's
 // $dynamicRef value.
 // It returns an error if the dynamic reference has no referent.
-// If there is no $dynamicRef, resolveDynamicRef returns nil, nil.
+// If there is no $dynamicRef, or it is ignored (draft-07), resolveDynamicRef returns nil, nil.
 // See https://json-schema.org/draft/2020-12/json-schema-core#section-8.2.3.2.
 func (st *state) resolveDynamicRef(schema *Schema) (*Schema, error) {
-	if schema.DynamicRef == "" {
+	if schema.DynamicRef == "" || st.rs.draft != draft2020 {
 		return nil, nil
 	}
 	info := st.rs.resolvedInfos[schema]
+	if !info.dynamicRefResolved() {
+		return nil, nil
+	}
 	// The ref behaves lexically or dynamically, but not both.
 	assert((info.resolvedDynamicRef == nil) != (info.dynamicRefAnchor == ""),
 		"DynamicRef not statically resolved properly")
